@@ -1175,6 +1175,26 @@ def oracle_c02(ctx, S):
         s.feed(hist)
         _queries_answered(ctx, S, s, dict(sim=S.name, kind='c02', history=hexs(hist)), [q])
         s.close()
+    if S is MSSim and not ctx.quick():
+        # the bound of C02_mscu_reachable_invariant is tight: 2^15 future-dated setpos push the
+        # initial entries out of the window, clean then empties the history (about 25 s, thorough only)
+        s = S(rng)
+        fut = s.d.now() + 10 ** 12
+        with patched(s.d.sv, **s.d.patch):
+            for i in range(2 ** 15):
+                for ch in '#setpos:0=2,%d,0,0,5\r\n' % (fut + i):
+                    s.system.parse(ch)
+            for ch in '#clean:0=2\r\n':
+                s.system.parse(ch)
+            last = None
+            for ch in '#getpos:0=2\r\n':
+                last = classify(s.system, ch)
+        ctx.evaluations += 1
+        if last[0] != 'R':
+            ctx.fail('mscu_history_emptied_after_2pow15_future_setpos',
+                     'getpos not answered after 2^15 future-dated setpos and a clean',
+                     dict(sim='mscu', kind='c02-deep', got=repr(last)))
+        s.close()
     for _ in range(n):
         s = make_history(rng, S, 'general', rng.randrange(1, 16))
         if not s.in_domain():
